@@ -296,8 +296,8 @@ def normalize_url(
         hostname = decode_punycode_hostname(hostname).lower()
 
     # Dropping :80 & :443 when they are the default port of the scheme
-    # NOTE: a url without scheme was given the http scheme above
-    if (port == 80 and scheme == "http") or (port == 443 and scheme == "https"):
+    # NOTE: a url without scheme was given the http scheme above ('//x' aside)
+    if (port == 80 and scheme in ("http", "")) or (port == 443 and scheme == "https"):
         port = None
 
     # Normalizing the path
